@@ -90,7 +90,7 @@ def emit(insts):
     return "\n".join(lines)
 
 
-def build_instances(ctx):
+def build_instances(ctx, which="C03"):
     quick = ctx.quick()
     insts = []
     per_rep_grid = 28 if quick else 10 ** 9
@@ -132,7 +132,7 @@ def build_instances(ctx):
         # each exhaustive 2^32 sweep costs ~10-15 minutes under ASan+UBSan: one per shard, rotating with the seed
         picked = 0
         for j, i in enumerate(c32):
-            if (j + ctx.seed) % max(1, len(c32) // core.NCPU) == 0 and picked < core.NCPU:
+            if (j + ctx.seed + (0 if which == "C03" else 1)) % max(1, len(c32) // core.NCPU) == 0 and picked < core.NCPU:   # C03 and C04 sweep different instances
                 i["all32"] = True
                 picked += 1
     # floating instances
@@ -151,7 +151,7 @@ def build_instances(ctx):
 
 
 def run(ctx, which):
-    insts = build_instances(ctx)
+    insts = build_instances(ctx, which)
     nsh = core.NCPU
     # balance: 8/16-bit exhaustive instances are cheap; spread by index
     shards = [[] for _ in range(nsh)]
